@@ -113,6 +113,10 @@ def run(tier, seed):
     # the 4-lane AVX2 vector field (simd build): checks/c01v.py
     from checks import c01v
     tasks += c01v.harnesses(rep, build.ir("simd", "O3"), tier)
+    # the 4-lane AVX-512 IFMA field (unstable_avx512 build, nightly toolchain): checks/c01i.py
+    from checks import c01i
+    try: tasks += c01i.harnesses(rep, build.ir("avx512", "O3"), tier)
+    except build.BuildError as e: rep.add(harness="avx512/build", config="avx512", function="build", status="inconclusive", why=str(e)[-400:], goals=[], wall_s=0)
     fcfgs = ["serial64", "serial32"] if tier == "quick" else cfgs
     build.ir_many([dict(config=c, flavour="O0") for c in fcfgs])
     for cfg in fcfgs: tasks += c01f.harnesses(rep, cfg, build.ir(cfg, "O0"))
